@@ -299,6 +299,14 @@ def evaluate(tree, rep, d, st, excl):
             g_ = seen.get(pid[1:])
             st.count('loc_probes')
             if aft:
+                # after #line the absolute value is D48's subject, but debug records must number lines the way __LINE__ does:
+                # extrapolate from a __LINE__ probe of the same file in the same #line zone
+                base = [(int(got[q]), e2[1]) for q, k2, e2 in rep['probes'] if k2 == 'line' and e2[0] == fn and e2[2] and got.get(q, '').isdigit() and q in ok_ids]
+                if base and g_ is not None:
+                    want = base[0][0] + (ln - base[0][1])
+                    st.count('loc_probes_after_#line')
+                    if g_[1] != want:
+                        return 'ok', '.loc record of mark(%s) after #line: __LINE__ numbering gives line %d, the record says %s' % (pid[1:], want, g_)
                 continue
             if g_ is None or g_[0] != fn or g_[1] != ln:
                 return 'ok', '.loc record of mark(%s): expected %s:%d, got %s' % (pid[1:], fn, ln, g_)
